@@ -105,18 +105,20 @@ Proof. reflexivity. Qed.
 End Life.
 
 (* ---- histories: outputs depend on the calibration epoch only; freeze is absorbing --------------- *)
-Lemma lstep_epoch act s o : o <> LCalibrate -> l_epoch (lstep act s o) = l_epoch s.
-Proof. destruct o; intros H; try reflexivity. contradiction. Qed.
+Lemma lstep_epoch act s o : o <> LCalibrate -> o <> LConvert -> l_epoch (lstep act s o) = l_epoch s.
+Proof. destruct o; intros H H'; try reflexivity; contradiction. Qed.
 
 Lemma lstep_frozen_mono act s o : l_frozen s = true -> l_frozen (lstep act s o) = true.
 Proof. destruct o; intros H; cbn; try exact H; reflexivity. Qed.
 
 Theorem history_epoch_only act ops : forall s,
-  ~ In LCalibrate ops -> Forall (fun fe => snd fe = l_epoch s) (ltrace act s ops).
+  ~ In LCalibrate ops -> ~ In LConvert ops -> Forall (fun fe => snd fe = l_epoch s) (ltrace act s ops).
 Proof.
-  induction ops as [|o ops IH]; intros s Hn; [constructor|].
-  cbn [ltrace]. assert (He : l_epoch (lstep act s o) = l_epoch s) by (apply lstep_epoch; intros ->; apply Hn; left; reflexivity).
-  constructor; [exact He|]. rewrite <- He. apply IH. intros Hin. apply Hn. right. exact Hin.
+  induction ops as [|o ops IH]; intros s Hn Hc; [constructor|].
+  cbn [ltrace].
+  assert (He : l_epoch (lstep act s o) = l_epoch s).
+  { apply lstep_epoch; intros ->; [apply Hn | apply Hc]; left; reflexivity. }
+  constructor; [exact He|]. rewrite <- He. apply IH; intros Hin; [apply Hn | apply Hc]; right; exact Hin.
 Qed.
 
 Theorem history_frozen_absorbing act ops : forall s,
